@@ -352,7 +352,13 @@ func (conn *Conn) read(ctx *Context, async bool) {
 		if err != nil {
 			err = errors.New("reading error body: " + err.Error())
 		}
-		call.done()
+		if conn.readSched != nil {
+			// With pipelining, completions are signalled in order: a failed
+			// call must not overtake earlier successful ones still queued.
+			conn.readSched.Schedule(call.done)
+		} else {
+			call.done()
+		}
 		conn.bufferPool.PutBuffer(ctx.buffer)
 		putContext(ctx)
 	default:
